@@ -14,10 +14,14 @@ impl<'a, T> VfIter<'a, T> {
             !r ==> forall|i: int| 0 <= i < self.s@.len() ==> call_ensures(f, (&#[trigger] self.s@[i],), false),
     { self.s.iter().any(f) }
 
-    // find: whatever the predicate, the result (if any) is an element of the slice
+    // find (T: std's Iterator::find for slice iterators): the result, if any, is an element of the slice that the predicate accepts;
+    // none means the predicate refuses every element
     #[verifier::external_body]
     pub fn find<F: Fn(&&'a T) -> bool>(self, f: F) -> (r: Option<&'a T>)
-        ensures r is Some ==> exists|i: int| 0 <= i < self.s@.len() && *r->Some_0 == #[trigger] self.s@[i],
+        requires forall|i: int| 0 <= i < self.s@.len() ==> call_requires(f, (&&#[trigger] self.s@[i],)),
+        ensures
+            r is Some ==> exists|i: int| 0 <= i < self.s@.len() && *r->Some_0 == #[trigger] self.s@[i] && call_ensures(f, (&&self.s@[i],), true),
+            r is None ==> forall|i: int| 0 <= i < self.s@.len() ==> call_ensures(f, (&&#[trigger] self.s@[i],), false),
     { self.s.iter().find(f) }
 
     #[verifier::external_body]
